@@ -19,7 +19,11 @@ RULE = ("honest pairings over random codes/identifiers/keys/salts; adversarial: 
         "exchange; M2 with missing fields; unpinned histories of several pair-setups in one process (honest, wrong-code, one altered reply, byte-for-byte replays of an earlier exchange's "
         "M2/M4/M6; two exchanges interleaved) with every single-bit flip, sampled byte values and length changes of the State item of M2/M4/M6, bit/byte/length corruptions and removal of every "
         "other field (outer and inside M6) and added Error items - through the generators with replies handed over as lists and as IP/CoAP decode them (expected filter), IpDiscovery over "
-        "HTTP, CoAPDiscovery and the BLE GATT state-machine driver. non-trivial = distinct (mutation class, outcome class)")
+        "HTTP, CoAPDiscovery and the BLE GATT state-machine driver; replies corrupted as ENCODED BYTES on the way (M2, M4, M6 and the sub-TLV the accessory seals into M6): every single-bit flip of "
+        "every type byte, single-bit flips of every length byte, type bytes replaced by the neighbouring item's / the step's other / fragment / separator types, length bytes off by one / 0 / 255, "
+        "value bytes, one byte inserted or deleted at every boundary, neighbouring encoded items swapped, both item orders - every bit of every byte of M2 in every run (part 1 is replayed on one "
+        "genuine M2, whole pairings for what it lets through) and of M4/M6/sub-TLV in the thorough tier - decoded with the expected filter, decoded whole as BLE does, and through IpDiscovery, "
+        "CoAPDiscovery and the GATT driver; judged by the harness's own TLV8 reading of the bytes that travelled (wire_verdict). non-trivial = distinct (mutation class, outcome class)")
 TRUSTED = ["reference SRP server and accessory (harness/refacc.py)", "Lean Real crypto (validated per run)"]
 ASSUMPTIONS = ["SRP values themselves are C02's subject: the model takes K and the expected server proof from the real SrpClient of the same exchange",
                "ephemerals pinned by patching os.urandom (srp) and Ed25519PrivateKey.generate (protocol) in the differential streams only; the history streams leave the library's random source alone and "
@@ -418,9 +422,163 @@ def alter(v, op):
     raise ValueError(op)
 
 
+# ---- corruption of the ENCODED reply (type bytes, length bytes, values, fragment boundaries) -----------------------
+# op: ["xor", position, mask] | ["set", position, byte] | ["ins", position, byte] | ["del", position] |
+#     ["swap", k] (the k-th and the (k+1)-th encoded item - fragment - change places)
+
+WIRE_REQUIRED = {(2, "outer"): (3, 2), (4, "outer"): (4,), (6, "outer"): (5,), (6, "inner"): (1, 3, 10)}
+WIRE_EXPECTED = {(2, "outer"): (6, 7, 3, 2), (4, "outer"): (6, 7, 4, 5), (6, "outer"): (6, 7, 5), (6, "inner"): (1, 3, 10)}
+WIRE_NUMERIC = {(2, 2), (4, 4)}  # (message, type): salt and proof enter the exchange as numbers - leading zero bytes carry nothing
+
+
+def wire_frags(b):
+    """the encoded items of a well-formed TLV8 string: (offset of the type byte, type, length)"""
+    out, i = [], 0
+    while i + 2 <= len(b):
+        out.append((i, b[i], b[i + 1]))
+        i += 2 + b[i + 1]
+    return out
+
+
+def wire_apply(b, op):
+    b = bytearray(b)
+    if op[0] == "swap":
+        fr = wire_frags(bytes(b))
+        if len(fr) < 2:
+            return bytes(b)
+        (o1, _, l1), (o2, _, l2) = fr[op[1] % (len(fr) - 1)], fr[op[1] % (len(fr) - 1) + 1]
+        return bytes(b[:o1] + b[o2:o2 + 2 + l2] + b[o1:o1 + 2 + l1] + b[o2 + 2 + l2:])
+    if op[0] == "ins":
+        b.insert(op[1] % (len(b) + 1), op[2] & 255)
+        return bytes(b)
+    if not b:
+        return b""
+    pos = op[1] % len(b)
+    if op[0] == "xor":
+        b[pos] ^= (op[2] & 255) or 1
+    elif op[0] == "set":
+        b[pos] = (op[2] & 255) if (op[2] & 255) != b[pos] else b[pos] ^ 1
+    elif op[0] == "del":
+        del b[pos]
+    else:
+        raise ValueError(op)
+    return bytes(b)
+
+
+def wire_class(genuine, op):
+    """what the corruption hits in the genuine encoding"""
+    if op[0] == "swap":
+        return "items"
+    pos = op[1] % (len(genuine) + (1 if op[0] == "ins" else 0))
+    for off, _, ln in wire_frags(genuine):
+        if pos == off:
+            return "type"
+        if pos == off + 1:
+            return "len"
+        if pos < off + 2 + ln:
+            return "value"
+    return "end"
+
+
+def read_tlv8(b):
+    """the harness's own TLV8 reader (HAP 14.1): the complete items in order, neighbouring items of one type being fragments
+    of one value; an item whose announced length runs past the end is not an item (second result: bytes were left over)"""
+    out, i = [], 0
+    while i + 2 <= len(b) and i + 2 + b[i + 1] <= len(b):
+        t, v = b[i], bytes(b[i + 2:i + 2 + b[i + 1]])
+        i += 2 + b[i + 1]
+        if out and out[-1][0] == t:
+            out[-1] = (t, out[-1][1] + v)
+        else:
+            out.append((t, v))
+    return out, i < len(b)
+
+
+def wire_verdict(msg, where, genuine, sent):
+    """what the property lets the controller do with the bytes `sent` in place of `genuine`, from this reader alone:
+    'genuine'   - the same items (their order carries nothing): a conformant reply, pairing must succeed;
+    'void'      - every item the step needs is there with exactly the value the accessory produced, there is no Error item
+                  and no State item saying something else: the alteration hit nothing the exchange uses (a State item may be
+                  absent - the library tolerates accessories that leave it out -, items of other types are ignored, and which of
+                  two SEPARATED items of one type counts is not defined, so either may): accepting or failing are both fine;
+    'must-fail' - anything else: an item the step needs is missing or does not carry the accessory's value."""
+    want, _ = read_tlv8(genuine)
+    got, leftover = read_tlv8(sent)
+    if not leftover and sorted(got) == sorted(want):
+        return "genuine"
+    want = dict(want)
+    have = {}
+    for t, v in got:
+        have.setdefault(t, []).append(v)
+    if where == "outer":
+        if 7 in have:
+            return "must-fail"
+        if 6 in have and want[6] not in have[6]:
+            return "must-fail"
+    for t in WIRE_REQUIRED[(msg, where)]:
+        if (msg, t) in WIRE_NUMERIC and where == "outer":
+            ok = any(len(v) > 0 and v.lstrip(b"\0") == want[t].lstrip(b"\0") for v in have.get(t, []))
+        else:
+            ok = want[t] in have.get(t, [])
+        if not ok:
+            return "must-fail"
+    return "void"
+
+
+def wire_template(msg, where, id_len=17, reverse=False):
+    """an encoding laid out like the accessory's reply (all lengths in pair-setup are fixed)"""
+    if where == "inner":
+        items = [(1, id_len), (3, 32), (10, 64)]
+    else:
+        items = {2: [(6, 1), (3, 384), (2, 16)], 4: [(6, 1), (4, 64)], 6: [(6, 1), (5, id_len + 32 + 64 + 6 + 16)]}[msg]
+        if reverse:
+            items = items[::-1]
+    return refacc.tlv([(t, b"\x01" * n) for t, n in items])
+
+
+def wire_ops(tmpl, expected, rng, every_byte, nsub, nval, nindel, nlenflip=8):
+    """single-byte corruptions of an encoding laid out like `tmpl`.  Always: every single-bit flip of every type byte, every
+    type byte replaced by the type of a neighbouring item, every swap of neighbouring encoded items.  Sampled (all of them
+    when the counts are large): single-bit flips of every length byte (nlenflip of the 8 each), flips and substitutions of
+    value bytes (every bit of every byte when every_byte), type bytes replaced by the other types the step knows / fragment
+    and separator types / anything, length bytes replaced by 0, one less, one more, 255, anything; one byte inserted at /
+    deleted from every boundary of the encoding."""
+    frs = wire_frags(tmpl)
+    bits = lambda x: bin(x).count("1")  # noqa: E731
+    structural = sorted([off for off, _, _ in frs] + [off + 1 for off, _, _ in frs])
+    values = [p for p in range(len(tmpl)) if p not in set(structural)]
+    if every_byte:
+        ops = [["xor", p, 1 << k] for p in range(len(tmpl)) for k in range(8)]
+    else:
+        ops = [["xor", off, 1 << k] for off, _, _ in frs for k in range(8)]
+        ops += [["xor", off + 1, 1 << k] for off, _, _ in frs for k in sorted(rng.sample(range(8), min(nlenflip, 8)))]
+    if not every_byte:
+        ops += [["xor", p, 1 << rng.randrange(8)] for p in rng.sample(values, min(nval, len(values)))]
+    ops += [["set", p, rng.randrange(256)] for p in rng.sample(values, min(nval, len(values)))]
+    known = sorted(set(t for _, t, _ in frs) | set(expected) | {0, 0x0C, 0x0D, 0xFF})
+    for i, (off, t, ln) in enumerate(frs):
+        neigh = sorted({frs[j][1] for j in (i - 1, i + 1) if 0 <= j < len(frs)} - {t})
+        other = [x for x in known if x != t and x not in neigh] + [x for x in [rng.randrange(256) for _ in range(2)] if x != t]
+        ops += [["set", off, x] for x in neigh + rng.sample(other, min(nsub, len(other))) if bits(x ^ t) != 1]
+        lens = [x for x in dict.fromkeys([0, ln - 1, ln + 1, 255, rng.randrange(256)]) if 0 <= x <= 255 and x != ln and bits(x ^ ln) != 1]
+        ops += [["set", off + 1, x] for x in rng.sample(lens, min(nsub, len(lens)))]
+    spots = structural + [off + 2 for off, _, _ in frs] + [len(tmpl)]
+    ins = []
+    for p in dict.fromkeys(spots):
+        near = {t for off, t, ln in frs if off <= p <= off + 2 + ln}
+        ins += [["ins", p, x] for x in sorted(near | {0, rng.randrange(256)})]
+    dels = [["del", p] for p in dict.fromkeys(structural + [off + 2 for off, _, _ in frs] + [off + 1 + ln for off, _, ln in frs])]
+    ops += rng.sample(ins, min(nindel, len(ins))) + rng.sample(dels, min(nindel, len(dels)))
+    ops += [["swap", k] for k in range(len(frs) - 1)]
+    return ops
+
+
 class Peer:
     """a conformant pair-setup accessory (HAP 5.6, harness.refacc) that keeps a transcript; optionally ONE field of ONE of
-    its replies is altered: mutation = {"msg": 2|4|6, "where": "outer"|"inner", "field": tlv type, "op": [...]}"""
+    its replies is altered: mutation = {"msg": 2|4|6, "where": "outer"|"inner", "field": tlv type, "op": [...]} alters the value
+    of one item; mutation = {"msg": 2|4|6, "where": "outer"|"inner", "wire": [...]} corrupts the ENCODED reply (wire_apply) as it
+    travels - only the entry points that ask for bytes (handle_wire) see it; for "inner" the sub-TLV of M6 is corrupted before
+    it is sealed"""
 
     def __init__(self, pin, ident, rb, salt, mutation=None, reverse=False):
         self.pin, self.id, self.rb, self.salt, self.mutation, self.reverse = pin, ident, rb, salt, mutation, reverse
@@ -429,10 +587,12 @@ class Peer:
         self.applied = False
         self.srv = None
         self.proved = False
+        self.last_msg = None
+        self.wire = None  # {"msg", "where", "genuine": bytes the accessory produced, "sent": bytes that travelled}
 
     def _mutate(self, msg, where, items):
         m = self.mutation
-        if not m or self.applied or m["msg"] != msg or m.get("where", "outer") != where:
+        if not m or "wire" in m or self.applied or m["msg"] != msg or m.get("where", "outer") != where:
             return items
         f, op = int(m["field"]), m["op"]
         if op[0] == "add":
@@ -451,6 +611,20 @@ class Peer:
             else:
                 out.append((t, v))
         return out
+
+    def _corrupt(self, msg, where, encoded):
+        m = self.mutation
+        if not m or "wire" not in m or self.applied or m["msg"] != msg or m.get("where", "outer") != where:
+            return encoded
+        sent = wire_apply(encoded, m["wire"])
+        self.applied = sent != encoded
+        self.wire = {"msg": msg, "where": where, "genuine": encoded, "sent": sent}
+        return sent
+
+    def handle_wire(self, items):
+        """the reply as bytes on the wire"""
+        reply = self.handle(items)
+        return self._corrupt(self.last_msg, "outer", refacc.tlv(reply))
 
     def handle(self, items):
         req = [(int(k), bytes(v)) for k, v in items]
@@ -487,8 +661,9 @@ class Peer:
                 ax = refacc.hk(K, b"Pair-Setup-Accessory-Sign-Salt", b"Pair-Setup-Accessory-Sign-Info")
                 sig = self.id.acc_ltsk.sign(ax + self.id.acc_id + self.id.acc_ltpk)
                 inner = self._mutate(6, "inner", [(1, self.id.acc_id), (3, self.id.acc_ltpk), (10, sig)])
-                enc = ChaCha20Poly1305(ekey).encrypt(b"\0\0\0\0PS-Msg06", refacc.tlv(inner), b"")
+                enc = ChaCha20Poly1305(ekey).encrypt(b"\0\0\0\0PS-Msg06", self._corrupt(6, "inner", refacc.tlv(inner)), b"")
                 reply, msg = [(6, b"\x06"), (5, enc)], 6
+        self.last_msg = msg
         if msg is not None:
             if self.reverse:
                 reply = reply[::-1]
@@ -515,17 +690,29 @@ class Replayer:
         return reply
 
 
+def _reply_bytes(peer, items):
+    """the peer's reply as it travels: bytes (corrupted on the way when the peer is told so)"""
+    h = getattr(peer, "handle_wire", None)
+    return h(items) if h is not None else refacc.tlv(peer.handle(items))
+
+
 def _drive(sm, peer, wire):
     """what every transport does with a pairing generator"""
     from aiohomekit.protocol.tlv import TLV
     request, expected = sm.send(None)
+    corrupting = "wire" in (getattr(peer, "mutation", None) or {})
     while True:
-        reply = peer.handle(request)
-        if wire:
-            # HomeKitConnection.post_tlv / CoAP do_pair_setup*: bytes on the wire, decoded with the list the generator yielded
-            reply = TLV.decode_bytes(TLV.encode_list(L(reply)), expected=expected)
+        if wire == "raw":
+            # ble.client._pairing_char_write: the whole value decoded without a filter and handed over as a dict
+            reply = dict(TLV.decode_bytes(_reply_bytes(peer, request)))
+        elif wire and corrupting:
+            # HomeKitConnection.post_tlv / CoAP do_pair_setup*: the bytes that arrived, decoded with the list the generator yielded
+            reply = TLV.decode_bytes(_reply_bytes(peer, request), expected=expected)
+        elif wire:
+            # the same, with the library's own encoder standing in for the accessory's
+            reply = TLV.decode_bytes(TLV.encode_list(L(peer.handle(request))), expected=expected)
         else:
-            reply = L(reply)
+            reply = L(peer.handle(request))
         try:
             request, expected = sm.send(reply)
         except StopIteration as s:
@@ -574,7 +761,7 @@ async def _ip_attempt(env, peer, pin, controller, alias):
             if len(rest) < n:
                 break
             body, buf = rest[:n], rest[n:]
-            reply = refacc.tlv(peer.handle(list(refacc.untlv(body).items())))
+            reply = _reply_bytes(peer, list(refacc.untlv(body).items()))
             loop.call_soon(t.feed, b"HTTP/1.1 200 OK\r\nContent-Type: application/pairing+tlv8\r\nContent-Length: %d\r\n\r\n" % len(reply) + reply)
         bufs[t] = buf
     net.handler = handler
@@ -606,7 +793,7 @@ async def _coap_attempt(env, peer, pin, controller, alias):
         def __init__(self, msg):
             f = loop.create_future()
             try:
-                f.set_result(Resp(refacc.tlv(peer.handle(list(refacc.untlv(bytes(msg.payload)).items())))))
+                f.set_result(Resp(_reply_bytes(peer, list(refacc.untlv(bytes(msg.payload)).items()))))
             except Exception as e:  # noqa: BLE001
                 f.set_exception(e)
             self.response = f
@@ -672,7 +859,7 @@ class _Gatt:
         if value == b"\x0c\x00" and self.pending:
             payload = self.pending.pop(0)
         else:
-            reply = refacc.tlv(self.peer.handle(list(refacc.untlv(value).items())))
+            reply = _reply_bytes(self.peer, list(refacc.untlv(value).items()))
             if self.chunk and len(reply) > self.chunk:
                 parts = [reply[i:i + self.chunk] for i in range(0, len(reply), self.chunk)]
                 self.pending = [refacc.tlv([(0x0C, c)]) for c in parts[:-1]] + [refacc.tlv([(0x0D, parts[-1])])]
@@ -698,6 +885,8 @@ async def _ble_attempt(env, peer, pin, fs, chunk):
 
 
 def mutation_kind(m):
+    if "wire" in m:
+        return f"m{m['msg']}{'i' if m.get('where') == 'inner' else ''}-wire-{m['wire'][0]}"
     return f"m{m['msg']}{'i' if m.get('where') == 'inner' else ''}-{FIELD.get(int(m['field']), m['field'])}-{m['op'][0]}"
 
 
@@ -723,9 +912,10 @@ def run_history(ctx, env, hist, rb):
         ios_id = st.get("ios_id", "ctl-uuid")
         rec, exc = None, None
         try:
-            if entry in ("gen-list", "gen-wire"):
-                s_, pk_ = _drive(P.perform_pair_setup_part1(st.get("with_auth", True)), peer, entry == "gen-wire")
-                rec = _drive(P.perform_pair_setup_part2(pin, ios_id, s_, pk_), peer, entry == "gen-wire")
+            if entry in ("gen-list", "gen-wire", "gen-raw"):
+                how = {"gen-list": False, "gen-wire": True, "gen-raw": "raw"}[entry]
+                s_, pk_ = _drive(P.perform_pair_setup_part1(st.get("with_auth", True)), peer, how)
+                rec = _drive(P.perform_pair_setup_part2(pin, ios_id, s_, pk_), peer, how)
             elif entry == "ip":
                 rec = env.loop.run_until_complete(_ip_attempt(env, peer, pin, controller, "hall"))
             elif entry == "coap":
@@ -737,6 +927,12 @@ def run_history(ctx, env, hist, rb):
         ctx.evaluations += 1
         recorded[i] = peer.replies
         cls = "ok" if exc is None else "err:" + type(exc).__name__
+        # a reply corrupted on the wire: what it hit, and what this harness's own reading of the bytes that travelled allows
+        verdict, wire = None, getattr(peer, "wire", None)
+        if wire is not None and peer.applied:
+            verdict = wire_verdict(wire["msg"], wire["where"], wire["genuine"], wire["sent"])
+            kind += "-" + wire_class(wire["genuine"], st["mutation"]["wire"])
+            ctx.dist[f"wire:{entry}:m{wire['msg']}{'i' if wire['where'] == 'inner' else ''}:{verdict}:{'ok' if exc is None else 'err'}"] += 1
         ctx.nontrivial.add(("history", entry, kind, cls))
         ctx.dist[f"history:{entry}:{kind}:{cls}"] += 1
         where = f"step {i + 1} of {len(hist['steps'])} ({kind}, {entry}, code {pin})"
@@ -748,10 +944,11 @@ def run_history(ctx, env, hist, rb):
                     problems.append(("setup/ephemeral-reused", f"{where}: the controller sent the SRP public value A={hx(d[3][:8])}... of exchange {seen_A.index(d[3]) + 1} of this process again - "
                                      "its freshness is the only thing that binds the accessory's M4 proof and M6 to the current exchange", i))
                 seen_A.append(d[3])
-        honest = kind == "honest" or (st["peer"] == "mutate" and not peer.applied)
-        if honest:
+        honest = kind == "honest" or (st["peer"] == "mutate" and not peer.applied) or verdict == "genuine"
+        if honest or verdict == "void":
             if exc is not None or not isinstance(rec, dict):
-                problems.append((f"setup/{kind}/{entry}/rejected-genuine", f"{where}: pairing a conformant accessory failed with {type(exc).__name__}: {str(exc)[:80]}", i))
+                if honest:
+                    problems.append((f"setup/{kind}/{entry}/rejected-genuine", f"{where}: pairing a conformant accessory failed with {type(exc).__name__}: {str(exc)[:80]}", i))
             else:
                 bad = []
                 if rec.get("AccessoryPairingID") != acc_id.decode() or rec.get("AccessoryLTPK") != ident.acc_ltpk.hex():
@@ -771,8 +968,15 @@ def run_history(ctx, env, hist, rb):
             if exc is None:
                 what = {"replay": f"the peer only played back the replies of exchange {st.get('of', 0) + 1} and never proved knowledge of the setup code in this exchange",
                         "wrong-code": "the accessory was programmed with another setup code"}.get(kind, f"reply M{st.get('mutation', {}).get('msg')} was altered ({st.get('mutation')})")
+                if verdict is not None:
+                    g, x = wire["genuine"], wire["sent"]
+                    lo = max(0, next((k for k in range(min(len(g), len(x))) if g[k] != x[k]), min(len(g), len(x))) - 3)
+                    what = (f"{'the sub-TLV sealed into M6' if wire['where'] == 'inner' else 'reply M%d' % wire['msg']} was altered in transit ({st['mutation']['wire']}): the accessory produced "
+                            f"...{g[lo:lo + 10].hex()}... (offset {lo}, {len(g)} bytes), what travelled was ...{x[lo:lo + 10].hex()}... ({len(x)} bytes), which reads as items "
+                            f"{[(t, len(v)) for t, v in read_tlv8(x)[0]]} (type, length) instead of {[(t, len(v)) for t, v in read_tlv8(g)[0]]} - "
+                            f"{', '.join(FIELD.get(t, str(t)) for t in WIRE_REQUIRED[(wire['msg'], wire['where'])])} must arrive with the accessory's value")
                 problems.append((f"setup/{kind}/{entry}/returned", f"{where}: pairing data was returned ({str(rec)[:60]}...) although {what}", i))
-            elif type(exc).__name__ not in CLS:
+            elif type(exc).__name__ not in CLS and verdict is None:
                 problems.append((f"setup/{kind}/{entry}/{type(exc).__name__}", f"{where}: unexpected exception class {type(exc).__name__}: {str(exc)[:80]}", i))
         if problems:
             break  # the history up to this step is the failing input
@@ -855,6 +1059,8 @@ def history_level(ctx, rng, rb):
             if rng.random() < 0.5:
                 steps.append({"peer": "honest"})
             go(hist(entry, steps))
+        # (e) replies corrupted as BYTES on their way (type bytes, length bytes, values, one byte more or less, items swapped)
+        wire_level(ctx, rng, rb, hist, go)
         # (d) two pair-setups alive at the same time
         for _ in range(ctx.budget(1, 30)):
             case = {"stream": "interleave", "wire": rng.random() < 0.5, "pins": [rng.choice(PINS), rng.choice(PINS)], "salt": hx(rb(16)),
@@ -863,6 +1069,80 @@ def history_level(ctx, rng, rb):
                 ctx.violation(sig, what, case)
     finally:
         env.close()
+
+
+def wire_level(ctx, rng, rb, hist, go):
+    """every reply of a conformant accessory travels as TLV8 bytes; ONE byte of ONE reply is damaged on the way (or one byte
+    is added / lost, or two neighbouring encoded items change places) and the bytes are handed to the library the way its
+    transports do: decoded with the expected-type filter (post_tlv, CoAP), decoded whole into a dict (BLE), and through
+    IpDiscovery / CoAPDiscovery / the GATT driver themselves.  For M6 the sub-TLV is damaged too before the accessory
+    seals it (an accessory - or whoever knows the setup code - that sends a malformed sub-TLV).  Oracle: wire_verdict."""
+    from aiohomekit.protocol.tlv import TLV
+    every = ctx.budget(False, True)
+    nsub, nval, nindel, nlenflip = ctx.budget(1, 99), ctx.budget(1, 32), ctx.budget(2, 99), ctx.budget(4, 8)
+
+    def step(msg, where, op, reverse):
+        return [{"peer": "mutate", "mutation": {"msg": msg, "where": where, "wire": op}, "reverse": reverse}]
+
+    # M2: part 1 holds no secret and draws nothing at random, so ONE genuine M2 serves every corruption of every byte:
+    # decode + perform_pair_setup_part1 is run on each; whole pairings are then run for every corruption after which part 1
+    # went on with the accessory's salt and key although the reply must fail, and for a sample of the others
+    for reverse in (False, True):
+        ops = wire_ops(wire_template(2, "outer", reverse=reverse), WIRE_EXPECTED[(2, "outer")], rng, True, 99, ctx.budget(24, 409), 99)
+        h = hist("gen-wire", [{"peer": "honest", "reverse": reverse}])
+        peer = Peer(h["pin"], refacc.Identity(rb, acc_id=h["acc_id"].encode()), rb, bytes.fromhex(h["salt"]), reverse=reverse)
+        request, expected = P.perform_pair_setup_part1(True).send(None)
+        items = peer.handle(request)
+        genuine, sent_by_accessory = refacc.tlv(items), (dict(items)[2], dict(items)[3])
+        suspects, others, framing = [], [], []  # framing: the corruptions of type / length bytes and boundaries among `others`
+        for op in ops:
+            sent = wire_apply(genuine, op)
+            verdict = wire_verdict(2, "outer", genuine, sent)
+            for entry in ("gen-wire", "gen-raw"):
+                sm = P.perform_pair_setup_part1(True)
+                sm.send(None)
+                try:
+                    sm.send(TLV.decode_bytes(sent, expected=expected) if entry == "gen-wire" else dict(TLV.decode_bytes(sent)))
+                    out = "yielded"
+                except StopIteration as stop:
+                    try:
+                        out = "same" if (bytes(stop.value[0]), bytes(stop.value[1])) == sent_by_accessory else "other"
+                    except Exception:  # noqa: BLE001
+                        out = "other"
+                except Exception:  # noqa: BLE001
+                    out = "err"
+                ctx.evaluations += 1
+                ctx.dist[f"wire-part1:{entry}:{verdict}:{out}"] += 1
+                ctx.nontrivial.add(("wire-part1", entry, op[0], wire_class(genuine, op), verdict, out))
+                (suspects if out == "same" and verdict == "must-fail" else others).append((entry, op))
+                if not (out == "same" and verdict == "must-fail") and wire_class(genuine, op) != "value":
+                    framing.append((entry, op))
+        for entry, op in suspects[:ctx.budget(3, 40)] + rng.sample(others, min(ctx.budget(1, 60), len(others))) + rng.sample(framing, min(ctx.budget(1, 60), len(framing))):
+            go(hist(entry, step(2, "outer", op, reverse)))
+        for entry in ("ip", "coap", "ble-gatt") if every or not reverse else ():
+            for _, op in (suspects[:1] + rng.sample(framing, min(ctx.budget(1, 8), len(framing))) + rng.sample(others, min(ctx.budget(0, 4), len(others))))[:ctx.budget(1, 12)]:
+                go(hist(entry, step(2, "outer", op, reverse)))
+    # M4, M6 and the sub-TLV inside M6: each corruption costs a whole exchange up to that reply
+    for msg, where in ((4, "outer"), (6, "outer"), (6, "inner")):
+        ops = wire_ops(wire_template(msg, where), WIRE_EXPECTED[(msg, where)], rng, every, nsub, nval, nindel, nlenflip)
+        for op in ops:
+            go(hist("gen-wire", step(msg, where, op, False)))
+        # ... the other ways a reply reaches the state machine
+        for entry, n in (("gen-raw", ctx.budget(2, 200)), ("ip", ctx.budget(1, 40)), ("coap", ctx.budget(1, 40)), ("ble-gatt", ctx.budget(1, 40))):
+            for op in rng.sample(ops, min(n, len(ops))):
+                go(hist(entry, step(msg, where, op, False)))
+        # ... and accessories that send the items of a reply in the other order
+        if where == "outer":
+            rops = wire_ops(wire_template(msg, where, reverse=True), WIRE_EXPECTED[(msg, where)], rng, False, nsub, nval, nindel)
+            for op in rng.sample(rops, min(ctx.budget(2, len(rops)), len(rops))):
+                go(hist(rng.choice(["gen-wire", "gen-raw"]), step(msg, where, op, True)))
+    tolerated = sum(n for k, n in ctx.dist.items() if (k.startswith("wire:") and k.endswith(":void:ok")) or (k.startswith("wire-part1:") and k.endswith(":void:same")))
+    refused = sum(n for k, n in ctx.dist.items() if k.startswith(("wire:", "wire-part1:")) and k.endswith(":must-fail:err"))
+    carried = sum(n for k, n in ctx.dist.items() if k.startswith("wire-part1:") and k.endswith((":must-fail:other", ":must-fail:yielded")))
+    ctx.notes.append(f"wire-level corruption: {refused} corrupted replies in which an item the step uses did not arrive intact were refused with an error, after {carried} corrupted M2 part 1 went on "
+                     f"with a salt / key other than the accessory's (whole pairings sampled: they fail at M4); {tolerated} corrupted replies were "
+                     "ACCEPTED in which every item the step uses arrived intact by the harness's reading (the State item made unreadable - handle_state_step tolerates a reply without State -, a stray "
+                     "byte after the last item that the expected-type filter skips, a second separated item of a type whose later occurrence is the genuine one): not asserted either way")
 
 
 def run_interleaved(ctx, case, rb):
